@@ -168,6 +168,17 @@ let dispatch (cmd : string) (t : tree) : tree =
       w_list (w_list w_nat) (Grid.beta_to_knots (r_nat kpl) (r_bool rr) (r_list r_nat latent) (r_list r_nat beta))
   | "cost_alloc", [calls] ->
       let (c, n) = Cost.allocation (r_list r_qs calls) in L [w_q c; w_z n]
+  | "transf", [chain; hyper; xs; ys] ->
+      (* chain entries: [0,[m,b]] linear, [1,[lb,ub,lbn,ubn]] minmax, [2,[mu,std]] zscore; hyper: [[lb,ub]|[], [mu,std]|[]] *)
+      let mk t = match as_list t with
+        | [I "0"; L [m; b]] -> Transf.Linear (r_q m, r_q b)
+        | [I "1"; L [a; b; c; d]] -> Transf.Minmax (r_q a, r_q b, r_q c, r_q d)
+        | [I "10"; L [m; sd]] -> Transf.Zscore (r_q m, r_q sd)
+        | _ -> failwith "transform" in
+      let opt t = match as_list t with [] -> None | [a; b] -> Some (r_q a, r_q b) | _ -> failwith "hyper" in
+      let h = match as_list hyper with [d; n] -> { Transf.h_dom = opt d; Transf.h_dist = opt n } | _ -> failwith "hyper" in
+      let ch = r_list mk chain in
+      L [w_qs (SL.map (QcRun.q_normalize ch h) (r_qs xs)); w_qs (SL.map (QcRun.q_denormalize ch h) (r_qs ys))]
   | "shape_loop", [shapes] -> w_list w_nat (Shape.loop_shape (r_list r_shape shapes))
   | "shape_fmt_input", [l; s; data] -> w_list (w_list w_z) (Shape.fmt_input (r_shape l) (r_shape s) (r_list r_z data))
   | "shape_out", [l; o] -> w_list w_nat (Shape.fmt_output_shape (r_shape l) (r_shape o))
